@@ -45,6 +45,38 @@ CLAIMED.update({
         note=LIM_NOTE, technique="Coq proof (frame + projection over the abstract expiring map, via C06 refinement) + differential correspondence with solo-vs-interleaved oracle", ref="DESIGN.md §5 C05"),
 })
 
+CLAIMED.update({
+    "C03": dict(
+        text="Machine-checked theorems (Properties/C03.v) on the per-key step from every state satisfying the reachability invariant: limit = B, 0 <= remaining <= B, remaining exact "
+             "(a following request for r is admitted iff r <= remaining), retry_after = 0 iff admitted, retry_after exact for denied requests <= B (admitted then, denied at every earlier instant), "
+             "reset_after >= time to full burst, reset_after = lifetime written to the store (also on the machine arithmetic: TTL handed to the store), fresh behaviour after reset_after. "
+             "C05_projection ties every concrete response to such a step.",
+        note=LIM_NOTE, technique="Coq proof (characterisation lemmas of the per-key GCRA step + machine-arithmetic equivalence) + differential correspondence with probing oracle", ref="DESIGN.md §5 C03"),
+    "C04": dict(
+        text="Machine-checked theorems (Properties/C04.v): rejected requests return the documented error and the store (table and scheduling state) unchanged; zero-quantity requests never write; "
+             "denied requests leave the store unchanged; deleting any set of rejected/denied/zero-quantity requests from ANY history (any keys, any limits) changes no other response, on any two stores.",
+        note=LIM_NOTE, technique="Coq proof (state-identity lemmas + deletion theorem over the abstract expiring map via C06) + differential correspondence with base-vs-inserted oracle", ref="DESIGN.md §5 C04"),
+    "C07": dict(
+        text="Machine-checked theorems (Properties/C07.v): lifetime clause - reset_after/TTL in [E, 2BE], written entry outlives its influence (tat+E <= expiry), forgetting an expired entry is "
+             "indistinguishable; reclamation clause - after any history ending with a write at t every PeriodicStore entry has expiry >= t - interval, every AdaptiveStore entry expiry >= t - max(5s,min,max) "
+             "with < max(max_operations,1) writes since the last sweep (every oracle stream), ProbabilisticStore sweeps exactly on every N-th write inside the no-wrap prefix (multiplier and modulus regenerated "
+             "from the source, coprimality checked). Entry counts and scheduling state of the real stores are compared with the model after every request.",
+        note=LIM_NOTE + " The probabilistic guarantee is proved for n*M < 2^64 (first ~6.9e9 writes); the bounded-size consequence is checked by the harness oracle, not proved as a cardinality theorem.",
+        technique="Coq proof (invariants by induction over operation sequences, number theory for the multiplicative hash) + differential correspondence (H1 entry counts/snapshots)", ref="DESIGN.md §5 C07"),
+    "C08": dict(
+        text="Machine-checked theorems (Properties/C08.v): for all i64 limits/quantity, any key, timestamps 1970..2200, any non-negative emission interval, any stored value, every reachable built-in store "
+             "and oracle bit: outcome is the negative-quantity error, the invalid-parameters error, or a result with limit = B, 0 <= remaining <= B, retry_after = 0 iff admitted, fresh key admits q <= B; "
+             "Panic (the model's outcome of every panicking operation) and the internal error are unreachable. Compared with the real code on the 19^4 boundary lattice in release and debug (overflow-checks) profiles.",
+        note=LIM_NOTE + " One theorem (rate model non-negative) uses the 4 stdlib real-number axioms via Flocq.",
+        technique="Coq proof over saturating i64 arithmetic (case analysis by lia on min/max clamps) + differential correspondence on the boundary lattice, two build profiles", ref="DESIGN.md §5 C08"),
+    "C17": dict(
+        text="Machine-checked theorems (Properties/C17.v) for ARBITRARY timestamp order: totality (no panic/error; the table stays a map), budget monotonicity for every physical key state, and the window bound "
+             "(even without the +J slack) for every execution without a stale-forget event; plus a kernel-checked refutation witness showing the full property fails through stale-forget events "
+             "(known finding, class-identified; any violation outside the class is reported).",
+        note=LIM_NOTE + " The property as stated is NOT proved in full: it is refuted by C17_refuted_by_stale_forget (known finding findings/F7-stale-forget.json).",
+        technique="Coq proof (potential-function argument on the never-forgetting per-key run, same-instant write lemma) + refutation witness by vm_compute + differential correspondence with class predicate", ref="DESIGN.md §5 C17"),
+})
+
 PENDING_REASON = ("framework for this property is still being built in this round (DESIGN.md §8.2 order of work); "
                   "no check is claimed until its theorems and correspondence run")
 
